@@ -28,10 +28,13 @@ pub struct Case {
     /// uniform samples come from this list (cyclic) - an alphabet with duplicates, so that
     /// zero-length edges and equal costs occur - instead of the planner's generator
     pub script: Option<Vec<Vec<f64>>>,
+    /// virtual nanoseconds per tick (1 000 by default; 0.37 s in some cases, so that time
+    /// limits of seconds and minutes occur as well as microseconds)
+    pub tick_ns: u64,
 }
 impl Case {
     pub fn to_json(&self) -> Value {
-        json!({"kind":"c06","problem":self.problem.to_json(),"params":self.params.to_json(),"t_ticks":self.t_ticks,"build_ticks":self.build_ticks,"budget":self.budget,"real_time_ms":self.real_time_ms,"warm_start":self.warm_start,
+        json!({"kind":"c06","problem":self.problem.to_json(),"params":self.params.to_json(),"t_ticks":self.t_ticks,"build_ticks":self.build_ticks,"budget":self.budget,"real_time_ms":self.real_time_ms,"warm_start":self.warm_start,"tick_ns":self.tick_ns,
                "script":self.script.as_ref().map(|l| l.iter().map(|s| crate::util::fjs(s)).collect::<Vec<_>>())})
     }
     pub fn from_json(v: &Value) -> Case {
@@ -44,6 +47,7 @@ impl Case {
             real_time_ms: v["real_time_ms"].as_u64(),
             warm_start: v["warm_start"].as_bool().unwrap_or(false),
             script: v["script"].as_array().map(|a| a.iter().map(crate::util::parse_fs).collect()),
+            tick_ns: v["tick_ns"].as_u64().unwrap_or(TICK),
         }
     }
 }
@@ -98,11 +102,15 @@ pub fn make_case(r: &mut Sm, idx: usize) -> Case {
     } else {
         None
     };
-    Case { problem, params, t_ticks, build_ticks, budget: 1_000_000, real_time_ms: None, warm_start, script }
+    Case { problem, params, t_ticks, build_ticks, budget: 1_000_000, real_time_ms: None, warm_start, script, tick_ns: if r.bool(0.12) { 370_000_000 } else { TICK } }
 }
 
 fn run_case<K: Kit>(ctx: &Ctx, b: &mut Batch, kit: &K, case: &Case) {
     b.evaluations += 1;
+    let tick = case.tick_ns.max(1);
+    if tick != TICK {
+        b.count("cases_with_second_scale_ticks", 1);
+    }
     crate::watch::set_case(case.to_json());
     let pname = case.params.kind.name();
     let replay = || {
@@ -113,14 +121,14 @@ fn run_case<K: Kit>(ctx: &Ctx, b: &mut Batch, kit: &K, case: &Case) {
     let lvs = ref_lvs(&case.problem.spec);
     let lvs_tag = if lvs == 0.0 { ":lvs=0" } else { "" };
     oxmpl::verif::arm(0);
-    let build_secs = (case.build_ticks as f64 + 0.5) * TICK as f64 * 1e-9;
+    let build_secs = (case.build_ticks as f64 + 0.5) * tick as f64 * 1e-9;
     let Ok(mut d) = Drv::new(kit, &case.params, build_secs) else { return };
     {
         let mut l = d.log.borrow_mut();
         l.keep_events = false;
         l.budget = case.budget;
-        l.tick_sample = TICK;
-        l.tick_valid = TICK;
+        l.tick_sample = tick;
+        l.tick_valid = tick;
     }
     // sealed worlds, now and then: the start list has a second entry - an *invalid* state in the
     // sealing obstacle, marginally inside its face towards the goal. Nothing valid can start
@@ -180,7 +188,7 @@ fn run_case<K: Kit>(ctx: &Ctx, b: &mut Batch, kit: &K, case: &Case) {
                 if case.params.kind == PKind::Prm {
                     let _ = d.construct_roadmap(true);
                 }
-                let _ = d.solve_ns(400 * TICK, true);
+                let _ = d.solve_ns(400 * tick, true);
                 b.count("warm_started_cases", 1);
             }
         }
@@ -205,7 +213,7 @@ fn run_case<K: Kit>(ctx: &Ctx, b: &mut Batch, kit: &K, case: &Case) {
         if l.late_samples > 0 {
             ctx.violate(
                 &format!("iteration-started-after-deadline:{pname}:{what}"),
-                format!("{} sampler calls began after the deadline (first clock read + {} ns); the latest by {} ns = {} ticks", l.late_samples, t_ns, l.worst_late_ns, l.worst_late_ns / TICK),
+                format!("{} sampler calls began after the deadline (first clock read + {} ns); the latest by {} ns = {} ticks", l.late_samples, t_ns, l.worst_late_ns, l.worst_late_ns / tick),
                 replay(),
             );
         }
@@ -216,8 +224,8 @@ fn run_case<K: Kit>(ctx: &Ctx, b: &mut Batch, kit: &K, case: &Case) {
                 // "T plus the cost of one planning iteration": work done before the planner starts
                 // its clock is charged against that one-iteration allowance (an iteration costs up
                 // to a few thousand queries in these scenarios)
-                if pre > 4000 * TICK {
-                    ctx.violate(&format!("unbounded-work-before-clock-start:{pname}"), format!("{} ticks of work before the first clock read", pre / TICK), replay());
+                if pre > 4000 * tick {
+                    ctx.violate(&format!("unbounded-work-before-clock-start:{pname}"), format!("{} ticks of work before the first clock read", pre / tick), replay());
                 }
             }
         }
@@ -226,6 +234,11 @@ fn run_case<K: Kit>(ctx: &Ctx, b: &mut Batch, kit: &K, case: &Case) {
         let rb = d.construct_roadmap(true);
         b.count("prm_builds", 1);
         match rb {
+            Res::Budget if d.log.borrow().late_samples > 0 => {
+                let l = d.log.borrow();
+                ctx.violate(&format!("iteration-started-after-deadline:{pname}:construct_roadmap"), format!("{} sampler calls began after the build deadline and the call was still running; the latest by {} ticks", l.late_samples, l.worst_late_ns / tick), replay());
+                return;
+            }
             Res::Budget => {
                 ctx.violate(&format!("query-budget-exhausted{lvs_tag}:{pname}:construct_roadmap"), format!("construct_roadmap made more than {} validity queries (build time {} ticks)", case.budget, case.build_ticks), replay());
                 return;
@@ -234,7 +247,7 @@ fn run_case<K: Kit>(ctx: &Ctx, b: &mut Batch, kit: &K, case: &Case) {
             _ => return,
         }
     }
-    let t_ns = case.t_ticks * TICK + TICK / 2;
+    let t_ns = case.t_ticks * tick + tick / 2;
     let res = d.solve_ns(t_ns, true);
     b.count(&format!("solves[{pname}]"), 1);
     let cls = match &res {
@@ -251,6 +264,11 @@ fn run_case<K: Kit>(ctx: &Ctx, b: &mut Batch, kit: &K, case: &Case) {
         b.count("solves_with_zero_timeout", 1);
     }
     match &res {
+        Res::Budget if d.log.borrow().late_samples > 0 => {
+            let l = d.log.borrow();
+            ctx.violate(&format!("iteration-started-after-deadline:{pname}:solve"), format!("{} sampler calls began after the deadline (first clock read + {} ns) and the call was still running; the latest by {} ticks", l.late_samples, t_ns, l.worst_late_ns / tick), replay());
+            return;
+        }
         Res::Budget => {
             ctx.violate(&format!("query-budget-exhausted{lvs_tag}:{pname}:solve"), format!("solve({} ticks) made more than {} validity queries without returning (longest valid segment {lvs})", case.t_ticks, case.budget), replay());
             return;
